@@ -92,21 +92,30 @@ WHAT = {"F22": "explicit position above the first implicit one", "F22b": "class 
         "F22e": "'...' with non-blank separator"}
 
 
-def gen_cases(ctx, n):
+def gen_cases(ctx, n, file_dir=None):
     rng = ctx.rng
     cases = [c for c in ctx.corpus() if "fields" in c]
     while len(cases) < n:
-        c = sg.gen_definition(rng)
+        c = sg.gen_definition(rng, file_dir=file_dir)
         sg.gen_values(rng, c, nasty=0.0, braces=0.0, falsy=0.05)
         cases.append(c)
     return cases
 
 
 def run(ctx):
+    import shutil as _sh, tempfile as _tf
+    file_dir = _tf.mkdtemp(prefix="verif-c22-files-")
+    try:
+        return _run(ctx, file_dir)
+    finally:
+        _sh.rmtree(file_dir, ignore_errors=True)
+
+
+def _run(ctx, file_dir):
     import time
     t0 = time.time()
-    n = ctx.budget(300, 4000)
-    cases = gen_cases(ctx, n)
+    n = ctx.budget(300, 2500)
+    cases = gen_cases(ctx, n, file_dir)
     dist = {"form_class": 0, "define_rejected": 0, "errors": 0, "fields_total": 0, "with_negative_pos": 0,
             "with_explicit_pos": 0, "list_fields": 0, "templated_fields": 0, "dots_fields": 0, "append_str": 0}
     metas, codes = sg.evaluate_argv(ctx, "c22", cases)
